@@ -10,13 +10,20 @@ with every accessible of the cluster):
   ["edge", ["", [a, b]]]     `add_subclass_edge(super=a, sub=b)` between known classes  (a late graph update;
                              the harness then calls `clear_generator_cache()` as `update_return_type` does)
   ["gens", ["", [i, 0]]]     `_get_generators_for(pool[i])` on both providers (+ three `select_generator_for` picks)
+  ["upd", [name, [i, 0]]]    a run-time return-type observation: the REAL `ModuleTestCluster.update_return_type(acc, pool[i])`
+                             (what `ReturnTypeObserver` does after every execution) for the function `g3` / method
+                             `K1.r0_k1` / constructor `K1` called `name`, once per provider (the cluster's
+                             `generator_provider` is pointed at each of the two providers in turn); a constructor is
+                             always observed to return its own class, as `type(K1(...))` is
+  ["add", [name, [0, 0]]]    a late `ModuleTestCluster.add_generator(acc)` (provider caches cleared by the harness)
 
 followed by `final`: every query of the history is asked again (served by the caches) and compared by the oracle
 with a recomputation on a brand-new `TypeSystem` holding the final graph.
 
-The Lean model (`Driver/C26.lean`) gets Python's own `__bases__` table (not pynguin's graph), the sequence of `add`
-calls (return type, generator id) and the same history; it answers with `Model/Generators.lean`
-(`ask`/`addSubclassEdge`/`offeredHeuristic`/`offeredRandom`/`addAll`).
+The Lean model (`Driver/C26.lean`) gets Python's own `__bases__` table (not pynguin's graph), every accessible's
+signature return type and fixed generated type, the sequence of `add` calls and the same history; it answers with
+`Model/Generators.lean` (`ask`/`addSubclassEdge`/`offeredHeuristic`/`offeredRandom`/`addGenerator`/`updateReturnType`);
+after every `upd`/`add` the WHOLE generator table of both providers and the signature's return type are compared.
 
 Oracle = the property in its own words on the implementation's answers only (see `oracle`).
 """
@@ -79,7 +86,9 @@ class C26(PropertyCheck):
     n_search = 150
     rule = ("one case = one generated module (3-9 classes over builtins, optional user generic, 5-10 annotated "
             "generators) analysed by generate_test_cluster + 10-16 requested types + a history of 40-90 memoised "
-            "type queries / provider queries / late add_subclass_edge calls, then all queries asked again; "
+            "type queries / provider queries / late add_subclass_edge calls / run-time return-type observations "
+            "(update_return_type on functions, methods, constructors) / late add_generator calls, then all queries "
+            "asked again; "
             "non-trivial = distinct case with a non-Any request answered by >= 2 generators from >= 2 buckets and a "
             "late edge that changes an answer")
     assumptions = [
@@ -87,7 +96,12 @@ class C26(PropertyCheck):
         "Unsupported and type-hint conversion are outside the model",
         "clause 3 covers the functools.lru_cache'd TypeSystem queries; the providers' own lru_caches "
         "(_get_generators_for, _get_for_type, _sorted_generators, compute_fitness) are cleared by the harness after a "
-        "late edge, as ModuleTestCluster.update_return_type does",
+        "late edge and a late add_generator; after a return-type observation they are cleared by the real "
+        "ModuleTestCluster.update_return_type (a stale provider cache there is reported by the oracle)",
+        "a constructor call is observed to return the constructed class (type(C(...)) is C): observations of "
+        "another type for a constructor are not generated (theorem hypothesis WOp.realistic)",
+        "both providers go through the real update_return_type: the cluster's generator_provider attribute is "
+        "pointed at each provider in turn and the signature's return type is reset in between",
         "lru_cache eviction (maxsize) is not modelled: an evicted entry is recomputed, which the invariant covers",
     ]
     trusted_base_extra = [
@@ -222,7 +236,81 @@ class C26(PropertyCheck):
         early = [o for o in ops[:30] if o[0] != "edge"]
         for o in rng.sample(early, min(len(early), 10)):
             ops.append(o)
+        ops = self._with_updates(rng, ops, specs, generic, rets, methods, pool, classes)
         return {"classes": specs, "generic": generic, "rets": rets, "methods": methods, "pool": pool, "ops": ops}
+
+    def _with_updates(self, rng, ops, specs, generic, rets, methods, pool, classes):
+        """Interleave run-time return-type observations (and a few late add_generator calls) with the history.  Every
+        observation is preceded by a provider query (fills the providers' caches with the old knowledge) and followed
+        by queries for the observed type, for the type the accessible was filed under, and for unrelated types."""
+        user = [s[0] for s in specs]
+        funcs = [f"g{k}" for k in range(len(rets))]
+        unann = [f"g{k}" for k, t in enumerate(rets) if t == "A"]
+        meths, seen_m = [], {}
+        for name, t in methods:
+            k = seen_m.get(name, 0)
+            seen_m[name] = k + 1
+            meths.append(f"{name}.r{k}_{name.lower()}")
+        meths += [f"{name}.m_{name.lower()}" for name in user]
+        ctors = user + ([GENERIC] if generic else [])
+
+        def pool_ix(t):
+            for k, x in enumerate(pool):
+                if x == t:
+                    return k
+            pool.append(t)
+            return len(pool) - 1
+
+        def observed():
+            r = rng.random()
+            if r < 0.55:
+                return {"i": [rng.choice(user), []]}
+            if r < 0.65:
+                return "N"
+            if r < 0.80:
+                return {"i": [rng.choice(["builtins.int", "builtins.str", "builtins.float", "builtins.object"]), []]}
+            if r < 0.95:
+                c = rng.choice(["builtins.list", "builtins.set", "builtins.dict"])
+                return {"i": [c, [{"i": [rng.choice(user + ["builtins.int", "builtins.str"]), []]}
+                                  for _ in range(ARITY[c])]]}
+            return {"t": [False, [{"i": [rng.choice(user + ["builtins.int"]), []]} for _ in range(rng.randint(1, 2))]]}
+
+        n_upd = rng.choice([0, 1, 2, 3, 4, 6, 8])
+        blocks = []
+        targets = []
+        for _ in range(n_upd):
+            r = rng.random()
+            if targets and r < 0.25:
+                name = rng.choice(targets)  # the same accessible observed again: the union grows (up to five members)
+            elif unann and r < 0.55:
+                name = rng.choice(unann)
+            elif r < 0.75:
+                name = rng.choice(funcs)
+            elif r < 0.88:
+                name = rng.choice(meths)
+            else:
+                name = rng.choice(ctors)
+            targets.append(name)
+            obs = {"i": [name, []]} if name in ctors else observed()
+            oi = pool_ix(obs)
+            others = [pool_ix({"i": [c, []]}) for c in rng.sample(user, min(len(user), 2))]
+            asked = [oi] + others + [rng.randrange(len(pool))]
+            before = [["gens", ["", [i, 0]]] for i in rng.sample(asked, rng.randint(1, len(asked)))]
+            after = [["gens", ["", [i, 0]]] for i in asked]
+            blocks.append(before + [["upd", [name, [oi, 0]]]] + after)
+        for _ in range(rng.choice([0, 0, 1, 2])):
+            name = rng.choice(targets + funcs + ctors)
+            i = rng.randrange(len(pool))
+            blocks.append([["add", [name, [0, 0]]], ["gens", ["", [i, 0]]]])
+        # splice the blocks into the history (behind the first few operations, keeping each block together)
+        if not blocks:
+            return ops
+        cuts = sorted(rng.randint(min(4, len(ops)), len(ops)) for _ in blocks)
+        out, prev = [], 0
+        for cut, block in zip(cuts, blocks):
+            out += ops[prev:cut] + block
+            prev = cut
+        return out + ops[prev:]
 
     # -- implementation adapter -----------------------------------------------------------------
     def _source(self, case):
@@ -316,7 +404,23 @@ class C26(PropertyCheck):
             rp.add(a)
         any_d = __import__("inspect").signature(tsm._SubtypeDistanceVisitor.__init__).parameters[  # noqa: SLF001
             "any_distance"].default
-        return {"tsm": tsm, "ts": ts, "cluster": cluster, "nodes": nodes, "names": names, "ids": ids,
+        from pynguin.analyses.module import ModuleTestCluster
+        from pynguin.utils.generic import genericaccessibleobject as gao
+
+        max_u = __import__("inspect").signature(ModuleTestCluster._add_or_make_union).parameters[  # noqa: SLF001
+            "max_size"].default
+        by_name = {}
+        for k, a in enumerate(accs):
+            if isinstance(a, gao.GenericConstructor):
+                by_name.setdefault(a.owner.name, k)
+            elif isinstance(a, gao.GenericMethod):
+                by_name.setdefault(f"{a.owner.name}.{a.method_name}", k)
+            elif isinstance(a, gao.GenericFunction):
+                by_name.setdefault(a.function_name, k)
+        # `str(Instance)` names a class by its name (builtins) or full name: the sort key of `_add_or_make_union`
+        strs = [(i.name if i.module == "builtins" else i.full_name) for i in nodes]
+        strs += ["?"] * (len(names) - len(strs))
+        return {"maxU": max_u, "by_name": by_name, "strs": strs, "gao": gao, "tsm": tsm, "ts": ts, "cluster": cluster, "nodes": nodes, "names": names, "ids": ids,
                 "table": table, "extra": extra, "accs": accs, "hp": hp, "rp": rp, "anyD": any_d,
                 "build_queries": build_queries, "key": key,
                 "generics": [[k, i.num_hardcoded_generic_parameters] for k, i in enumerate(nodes)
@@ -427,19 +531,27 @@ class C26(PropertyCheck):
     def impl(self, case):
         ctx = self._build(case)
         self._tsm = ctx["tsm"]
+        gao = ctx["gao"]
         ts, nodes, ids, hp, rp, accs = ctx["ts"], ctx["nodes"], ctx["ids"], ctx["hp"], ctx["rp"], ctx["accs"]
+        cluster = ctx["cluster"]
         gid = {id(a): k for k, a in enumerate(accs)}
-        rets = [a.generated_type() for a in accs]
+        callable_ = [isinstance(a, gao.GenericCallableAccessibleObject) for a in accs]
+        gens0 = [a.generated_type() for a in accs]
+        sigs0 = [a.inferred_signature.return_type if c else a.generated_type() for a, c in zip(accs, callable_)]
+        # functions and methods generate what their signature returns; everything else has a fixed generated type
+        fixed = [not (c and isinstance(a, (gao.GenericFunction, gao.GenericMethod))) for a, c in zip(accs, callable_)]
         req = [self._mk(ctx, t) for t in case["pool"]]
-        n_req = len(req)
-        pool_ids = [self._ids_ty(ctx, t) for t in case["pool"]] + [self._unmk(ctx, r) for r in rets]
-        adds = [[n_req + k, k] for k in range(len(accs))]
+        n_req, n_acc = len(req), len(accs)
+        pool_ids = ([self._ids_ty(ctx, t) for t in case["pool"]] + [self._unmk(ctx, r) for r in gens0]
+                    + [self._unmk(ctx, r) for r in sigs0])
+        acc_desc = [[n_req + n_acc + k, (n_req + k) if fixed[k] else None] for k in range(n_acc)]
+        adds = list(range(n_acc))
         # the table the analysis itself built must be the one `add` builds from the same accessibles
         def tbl(provider):
             return [[self._unmk(ctx, t), [gid[id(a)] for a in gens]] for t, gens in provider.get_all().items()]
         table_h, table_r = tbl(hp), tbl(rp)
         cl_tbl = {jdump(self._unmk(ctx, t)): sorted(gid[id(a)] for a in gens)
-                  for t, gens in ctx["cluster"].generators.items()}
+                  for t, gens in cluster.generators.items()}
         same_as_cluster = cl_tbl == {jdump(t): sorted(g) for t, g in table_h}
         ops = []
         for op, (kind, (a, b)) in case["ops"]:
@@ -449,16 +561,29 @@ class C26(PropertyCheck):
                 ops.append([op, [kind, [ids[a], ids[b]]]])
             elif op == "q" and kind in ("subs", "sups"):
                 ops.append([op, [kind, [ids[a], 0]]])
+            elif op in ("upd", "add"):
+                k = ctx["by_name"].get(kind)
+                if k is None or not callable_[k]:
+                    self.count(f"{op}-target-not-in-cluster")
+                    continue
+                if op == "upd" and fixed[k]:
+                    a = n_req + k  # `type(C(...)) is C`: a constructor is observed to return its own class
+                ops.append([op, ["", [k, a if op == "upd" else 0]]])
             else:
                 ops.append([op, [kind, [a, b]]])
-        out, gens_aux = [], []
+        all_types = req + gens0 + sigs0
+        out, gens_aux, upd_aux = [], [], []
         fresh = None
-        bucket_of = {}
-        for t, gens in table_h:
-            for g in gens:
-                bucket_of[g] = t
-        buckets = list(hp.get_all().keys())
         n_edges = 0
+
+        def both(f):
+            """Run `f` with the cluster's `generator_provider` pointed at each of the two providers in turn."""
+            res = []
+            for prov in (hp, rp):
+                cluster.generator_provider = prov
+                res.append(self._call(f))
+            return res
+
         for op, (kind, (a, b)) in ops:
             if op == "q":
                 out.append(self._query(ctx, ts, req, kind, a, b))
@@ -469,6 +594,31 @@ class C26(PropertyCheck):
                 fresh = None
                 n_edges += 1
                 out.append(None)
+            elif op == "upd":
+                acc, obs = accs[a], all_types[b]
+                sig = acc.inferred_signature
+                old = sig.return_type
+                results = []
+
+                def run_update():
+                    sig.return_type = old  # both providers see the same observation on the same old knowledge
+                    cluster.update_return_type(acc, obs)
+                    return self._unmk(ctx, sig.return_type)
+
+                results = both(run_update)
+                self.count("upd:" + type(acc).__name__)
+                self.count("upd-changed" if sig.return_type != old else "upd-unchanged")
+                out.append({"tbl": tbl(hp), "ret": results[0]})
+                upd_aux.append({"tbl_r": tbl(rp), "ret_r": results[1]})
+            elif op == "add":
+                acc = accs[a]
+                both(lambda: cluster.add_generator(acc))
+                hp.clear_generator_cache()
+                rp.clear_generator_cache()
+                self.count("late-add:" + type(acc).__name__)
+                out.append({"tbl": tbl(hp), "ret": self._unmk(ctx, sigs0[a] if not callable_[a]
+                                                               else acc.inferred_signature.return_type)})
+                upd_aux.append({"tbl_r": tbl(rp), "ret_r": out[-1]["ret"]})
             else:
                 T = req[a]
                 h = self._call(lambda: [[gid[id(g.generator)], g._subtype_distance]  # noqa: SLF001
@@ -481,12 +631,22 @@ class C26(PropertyCheck):
                 out.append({"h": h, "r": r})
                 if fresh is None:
                     fresh = self._fresh(ctx)
-                maybe, cov = {}, {}
-                for S in buckets:
-                    k = jdump(self._unmk(ctx, S))
-                    maybe[k] = self._call(fresh.is_maybe_subtype, S, T)
-                    cov[k] = self._ref_cov(fresh, S, T)
-                gens_aux.append({"maybe": maybe, "cov": cov, "picks_h": picks_h, "picks_r": picks_r,
+                # the type every offered generator returns NOW (`generated_type()` at the moment of the request)
+                offered = set()
+                if isinstance(h, list):
+                    offered |= {x[0] for x in h}
+                if isinstance(r, list):
+                    offered |= set(r)
+                cur, maybe, cov = {}, {}, {}
+                for i in sorted(offered):
+                    S = accs[i].generated_type()
+                    d = self._unmk(ctx, S)
+                    cur[str(i)] = d
+                    k = jdump(d)
+                    if k not in maybe:
+                        maybe[k] = self._call(fresh.is_maybe_subtype, S, T)
+                        cov[k] = self._ref_cov(fresh, S, T)
+                gens_aux.append({"cur": cur, "maybe": maybe, "cov": cov, "picks_h": picks_h, "picks_r": picks_r,
                                  "prim": bool(T.accept(ctx["tsm"].is_primitive_type))})
         # ask everything again (served by the caches), then recompute on a brand-new type system with the final graph
         final_q, seen = [], set()
@@ -500,19 +660,26 @@ class C26(PropertyCheck):
         edges = sorted({(nodes.index(x), nodes.index(y)) for x, y in ts._graph.edges})  # noqa: SLF001
         self.light[ctx["key"]] = {
             "classes": ctx["table"], "extra": ctx["extra"], "tower": ctx["tower"], "generics": ctx["generics"],
-            "anyD": ctx["anyD"], "prims": ctx["prims"], "pool": pool_ids, "adds": adds, "ops": ops, "final": final_q}
+            "anyD": ctx["anyD"], "maxU": ctx["maxU"], "prims": ctx["prims"], "strs": ctx["strs"], "pool": pool_ids,
+            "accs": acc_desc, "adds": adds, "ops": ops, "final": final_q}
         if len(self.light) > 3000:
             self.light.clear()
         self.count("classes:%d" % len(case["classes"]))
         self.count("late-edges:%d" % n_edges)
+        self.count("updates:%d" % sum(1 for o in ops if o[0] == "upd"))
         self.count("build-order-cached-queries:%d" % ctx["build_queries"])
         self.count("generators:%d" % min(len(accs), 30))
-        for a in accs:
+        for a, g, sg, fx in zip(accs, gens0, sigs0, fixed):
             self.count("acc:" + type(a).__name__)
+            if fx and g != sg:
+                self.count("fixed-accessible-whose-signature-returns-another-type")
         return {"edges": [list(e) for e in edges], "table": table_h, "out": out, "final": final,
+                "table_end": tbl(hp),
+                "rets": [self._unmk(ctx, a.inferred_signature.return_type if c else g)
+                         for a, c, g in zip(accs, callable_, gens0)],
                 "aux": {"table_r": table_r, "same_as_cluster": same_as_cluster, "recomputed": recomputed,
-                        "final_q": final_q, "gens": gens_aux, "ops": ops, "pool": pool_ids, "n_req": n_req,
-                        "bucket_of": {str(k): v for k, v in bucket_of.items()}, "names": ctx["names"],
+                        "final_q": final_q, "gens": gens_aux, "upd": upd_aux, "table_end_r": tbl(rp), "ops": ops,
+                        "pool": pool_ids, "n_req": n_req, "names": ctx["names"],
                         "build_queries": ctx["build_queries"], "prims": ctx["prims"]}}
 
     def model_line(self, case):
@@ -537,8 +704,19 @@ class C26(PropertyCheck):
         for k, (kind, _) in enumerate(impl_out["aux"]["final_q"]):
             if kind in ("subs", "sups") and k < len(mfin) and isinstance(mfin[k], list):
                 mfin[k] = sorted(mfin[k])
+        # after every update / late add the WHOLE table of the random provider too, and the signature it left behind
+        u = 0
+        for k, (op, _) in enumerate(ops):
+            if op in ("upd", "add"):
+                ua = impl_out["aux"]["upd"][u]
+                u += 1
+                if not isinstance(mout[k], dict) or mout[k].get("tbl") != ua["tbl_r"] or mout[k].get("ret") != ua["ret_r"]:
+                    return False
         return (sorted({tuple(e) for e in model_out.get("edges", [])}) == [tuple(e) for e in impl_out["edges"]]
                 and model_out.get("table") == impl_out["table"] and model_out.get("table") == impl_out["aux"]["table_r"]
+                and model_out.get("table_end") == impl_out["table_end"]
+                and model_out.get("table_end") == impl_out["aux"]["table_end_r"]
+                and model_out.get("rets") == impl_out["rets"]
                 and mout == impl_out["out"] and mfin == impl_out["final"])
 
     # -- the property in its own words --------------------------------------------------------------
@@ -547,7 +725,6 @@ class C26(PropertyCheck):
         aux = impl_out["aux"]
         names = aux["names"]
         pool = aux["pool"]
-        bucket_of = {int(k): v for k, v in aux["bucket_of"].items()}
 
         def show(t):
             if isinstance(t, str):
@@ -586,10 +763,12 @@ class C26(PropertyCheck):
                 fail({"clause": "sound", "class": "raises"}, f"_get_generators_for({show(T)}) raised {o}", T=T)
                 continue
             hset, rset = {x[0] for x in o["h"]}, set(o["r"])
-            # clause 1: every generator that may be picked returns a type that may be a subtype of T
+            cur = {int(i): S for i, S in ga["cur"].items()}
+            # clause 1: every generator that may be picked returns a type that may be a subtype of T — the type it
+            # returns NOW (`generated_type()` when the request is made), whatever it was filed under earlier
             for prov, offered in (("heuristic", hset), ("random", rset)):
                 for i in sorted(offered):
-                    S = bucket_of[i]
+                    S = cur[i]
                     if ga["maybe"][jdump(S)] is not True:
                         kl = ("generic-args-invariance" if prov == "heuristic" and has_args(T) and has_args(S)
                               and ga["cov"][jdump(S)] else "other")
@@ -603,7 +782,7 @@ class C26(PropertyCheck):
                              f"{prov}.select_generator_for({show(T)}) returned {p}, offered set {sorted(offered)}", T=T)
             # clause 2: both providers offer the same set
             for i in sorted(hset ^ rset):
-                S = bucket_of[i]
+                S = cur[i]
                 if i in hset:
                     kl = ("generic-args-invariance" if has_args(T) and has_args(S) and ga["cov"][jdump(S)]
                           else "other")
@@ -642,7 +821,7 @@ class C26(PropertyCheck):
             T = aux["pool"][a]
             self.count("request:" + (T if isinstance(T, str) else next(iter(T))))
             if T != "A" and isinstance(o["r"], list) and len(o["r"]) >= 2:
-                if len({jdump(aux["bucket_of"][str(i)]) for i in o["r"]}) >= 2:
+                if len({jdump(aux["gens"][g - 1]["cur"][str(i)]) for i in o["r"]}) >= 2:
                     rich = True
         # a late edge that changed an answer: the first answer to some query differs from the recomputation on the
         # final graph (independent of whether the caches went stale)
